@@ -62,7 +62,7 @@ Print Assumptions C03_unannotated_nothing.
 (* a collected item keeps the kind and the identifier of its source item *)
 Theorem C03_item_identity : forall (uc : unicode) (tstr : str -> option ty) (T : list str) (x : item) (it : ritem),
   parse_leaf uc tstr T x = Ok it ->
-  Proofs.C03.leaf_kind_ok x it /\ original (item_id it) = replace_sub (lit "r#") [] (leaf_ident x).
+  c03_leaf_kind_ok x it /\ original (item_id it) = replace_sub (lit "r#") [] (leaf_ident x).
 Proof. exact Proofs.C03.parse_leaf_kind. Qed.
 Print Assumptions C03_item_identity.
 
